@@ -15,6 +15,7 @@ import (
 	"math/rand"
 	"os"
 	"os/exec"
+	"path/filepath"
 	"sort"
 	"strconv"
 	"strings"
@@ -347,6 +348,7 @@ func runC18(c *Ctx) {
 			}
 		}
 	}
+	c18ShortWrites(c)
 	// MaxTxPacket above the page size
 	for _, n := range []int{262145, 300000, 1 << 20} {
 		for _, reqServer := range []bool{true, false} {
@@ -534,4 +536,102 @@ func c18ChildHandle(req string) string {
 	}
 	d, _ := res.resps[2].data()
 	return fmt.Sprintf("typ=%d len=%d good=%v", res.resps[2].Typ, len(d), bytes.Equal(d, content[:n]))
+}
+
+// c18ShortWrites (kind shortwrite): request streams that are not all well formed. After an OPEN, a few WRITEs of a
+// recognisable filler and a READ (so that, with the allocator, pooled pages hold earlier payloads), the client sends a WRITE
+// whose length field announces more data than the packet carries, then - if the connection is still there - a READ of the
+// whole file and a CLOSE. The sequence of answers (type, status code, DATA payload; or "closed") and the final content of the
+// file must be the same with the allocator off and on. Oracle only.
+func c18ShortWrites(c *Ctx) {
+	for _, reqServer := range []bool{false, true} {
+		for _, carried := range []int{0, 4, 300} {
+			for _, excess := range []int{1, 60, 5000, 100000} {
+				var outs [2]string
+				for ai, alloc := range []bool{false, true} {
+					dir, err := os.MkdirTemp("", "vh-c18sw-")
+					if err != nil {
+						return
+					}
+					name := "/f"
+					o := pairOpt{reqServer: reqServer, alloc: alloc}
+					var mf *memFile
+					if reqServer {
+						fs := newMemFS()
+						mf = fs.get("/f", true)
+						o.handlers = fs.handlers()
+					} else {
+						name = filepath.Join(dir, "f")
+						os.WriteFile(name, nil, 0o644)
+					}
+					rs, err := newRawSession(o)
+					if err != nil {
+						os.RemoveAll(dir)
+						c.Diag("shortwrite session: %v", err)
+						return
+					}
+					var log []string
+					note := func(r *rawResp, err error) bool {
+						if err != nil || r == nil {
+							log = append(log, "closed")
+							return false
+						}
+						e := fmt.Sprintf("%s", pgTypeName(r.Typ))
+						if code, isSt := r.statusCode(); isSt {
+							e += fmt.Sprintf(":%d", code)
+						}
+						if d, isD := r.data(); isD {
+							e += ":" + hexs(d)
+						}
+						log = append(log, e)
+						return true
+					}
+					h := ""
+					if r, err := rs.do(rawOpen(1, name, 0x1b, 0, nil)); note(r, err) { // READ|WRITE|CREAT|TRUNC
+						h, _ = r.handle()
+					}
+					alive := h != ""
+					for k := 0; alive && k < 3; k++ {
+						alive = note(rs.do(rawWrite(uint32(10+k), h, uint64(k*2000), bytes.Repeat([]byte{'S'}, 2000))))
+					}
+					if alive {
+						r, err := rs.do(rawRead(20, h, 0, 6000))
+						alive = err == nil && r != nil
+						log = append(log, fmt.Sprintf("read:%v", alive))
+					}
+					if alive {
+						// WRITE at offset 6000: `carried` bytes of 'w', length field = carried + excess
+						data := bytes.Repeat([]byte{'w'}, carried)
+						fr := frame(pkt(fxpWrite, 30).str(h).u64(6000).u32(uint32(carried + excess)).b)
+						fr = append(fr, data...)
+						binary.BigEndian.PutUint32(fr, uint32(len(fr)-4))
+						alive = note(rs.do(fr))
+					}
+					if alive {
+						alive = note(rs.do(rawRead(40, h, 5990, 32768)))
+					}
+					if alive {
+						note(rs.do(rawHandleOp(fxpClose, 50, h)))
+					}
+					rs.Close()
+					var final []byte
+					if mf != nil {
+						final = mf.bytes()
+					} else {
+						final, _ = os.ReadFile(name)
+					}
+					os.RemoveAll(dir)
+					outs[ai] = strings.Join(log, " ") + fmt.Sprintf(" | file: %d bytes, beyond 6000: %s", len(final), hexs(final[min(6000, len(final)):min(6040, len(final))]))
+				}
+				n := c.Case("shortwrite", kvs("srv", c02Cfg{reqServer: reqServer}.name()), kvi("carried", carried), kvi("excess", excess))
+				c.NT(n)
+				c.Stat("cases_shortwrite")
+				if outs[0] != outs[1] {
+					c.Oracle(n, false, fmt.Sprintf("alloc-changes-responses: a WRITE announcing %d bytes more than the %d it carries: without the allocator [%s], with it [%s]", excess, carried, truncs(outs[0]), truncs(outs[1])))
+				} else {
+					c.Oracle(n, true, "")
+				}
+			}
+		}
+	}
 }
